@@ -29,8 +29,7 @@ type connInfo struct {
 // analyseHandleConn finds the frame loop's anchors in the recorder's connection handler.
 func analyseHandleConn(w *World) *connInfo {
 	ci := &connInfo{}
-	ci.fn = w.Func("cmd/thermal-recorder", "handleConn")
-	if ci.fn == nil {
+	{
 		// the function that calls headers.ReadHeaderInfo in the recorder
 		for _, fn := range w.RepoFuncs() {
 			if fn.Pkg == nil || fn.Pkg.Pkg.Path() != modPath+"/cmd/thermal-recorder" {
